@@ -12,8 +12,10 @@ JNext == l + Shards <= Len(TraceLog) /\ l' = l + Shards
 
 (* kind = "expand": input (t, items, ix, cur, sel, q, fp); the code said valid / x; argv = what each real shell,      *)
 (* started by the real Executor.ExecCommand, passed to the command (a marker if it was not run as one plain command)      *)
+(* d = the --delimiter fzf has (kind awk / str / cls, pat), sep = its print separator; fs = what the temporary files   *)
+(* of the expansion held, in template order (read before they are removed; in x the path of a file is the symbol FILE)  *)
 StateOf(r) == [items |-> [i \in 1..Len(r.items) |-> [text |-> r.items[i], idx |-> r.ix[i]]],
-               cur |-> r.cur, sel |-> r.sel, query |-> r.q, fp |-> r.fp]
+               cur |-> r.cur, sel |-> r.sel, query |-> r.q, fp |-> r.fp, delim |-> r.d, sep |-> r.sep]
 ShellNames(r) == DOMAIN r.argv
 (* runs: the same input under cells of the ($SHELL, --with-shell) matrix.  set / shell / ws = the cell (paths as        *)
 (* element lists); x = the expansion by the executor NewExecutor built under the cell; ran = its own ExecCommand was    *)
@@ -32,6 +34,8 @@ ExplainedExpand(r) ==
         w  == WantI(ti, st)
     IN /\ r.valid = v
        /\ v => /\ r.x = x                                                  \* the code expands as specified
+               /\ r.fs = FilesI(ti, st)                                    \* and writes the files as specified
+               /\ FilesReadBackI(ti, st)
                /\ w.status = "OK" =>                                        \* and where the property speaks:
                     /\ ShEval(x) = w                                        \*   the model reads back the original texts
                     /\ \A n \in ShellNames(r) : r.argv[n] = w.words         \*   and so does every real shell
@@ -47,18 +51,49 @@ ExplainedPexec(r) ==
        /\ ExecutorReadsBack(env, r.ws, r.item) /\ ExecutorReadsBack(env, r.ws, r.q)
        /\ r.seen = <<r.item, r.q>>
 
-(* kind = "tmux": the real binary re-launched itself (argv0 + args) through the generated script; seen / seenenv =   *)
-(* what the re-launched process received.  CODE-DERIVED: exactly one argument is inserted after argv0 and some are     *)
-(* appended; the original arguments stay contiguous.                                                                   *)
+(* kind = "tmux": the real binary re-launched itself (argv0 + args) through the generated script, run by the real sh  *)
+(* from an environment that has none of the entries (a popup starts from the tmux server's environment).               *)
+(* ents = the entries fzf was started with (any text; with or without "="), in order; script = the part of the         *)
+(* generated script that carries them; seen = argv of the re-launched process; seenenv = the entries of ents that       *)
+(* arrived verbatim in its environment, in order, followed by every other entry it had that the harness did not put     *)
+(* there; ran = what the stand-in command `a` (first in $PATH) was called with, if the script ran it.                   *)
+(* CODE-DERIVED: exactly one argument is inserted after argv0 and some are appended; the original arguments stay         *)
+(* contiguous.                                                                                                            *)
 ExplainedTmux(r) ==
     /\ r.err = ""
     /\ LET all == <<r.argv0>> \o r.args
            n   == Len(r.args)
        IN /\ Len(r.seen) >= n + 2
           /\ ShEval(TmuxArgStr(all)) = Ok(<<r.seen[1]>> \o SubSeq(r.seen, 3, n + 2))
-    /\ \A i \in 1..Len(r.envs) : ShEval(TmuxExportWord(r.envs[i])) = Ok(<<<<"a">> \o r.seenenv[i]>>)
+    /\ r.script = TmuxExports(r.ents)
+    /\ ScriptSafe(r.ents)
+    /\ r.seenenv = ScriptEval(TmuxExports(r.ents)).vars
+    /\ r.seenenv = SelectSeq(r.ents, Exported)
+    /\ \A i \in 1..Len(r.ents) : Exported(r.ents[i]) => TmuxExportReadsBack(EntryValue(r.ents[i]))
+    /\ r.ran = <<>>
 
-Explained(r) == IF r.kind = "tmux" THEN ExplainedTmux(r) ELSE IF r.kind = "pexec" THEN ExplainedPexec(r) ELSE ExplainedExpand(r)
+(* kind = "pmix": the real binary under tmux, --read0 --multi [--print0] [--delimiter D] --query Q, ran                  *)
+(*   load:select-all+execute-silent(cp {+f} pf; cp {+f2} pf2; cp {f} cf; cp {+nf} nf;                                     *)
+(*                                  printf '%s\0' {q:1} {q:2..} {q:s-1} {2} {+1} > seen)+abort                            *)
+(* on several items; pf / pf2 / cf / nf = what the files held, seen = the arguments printf received.                      *)
+PhB(body) == ParseBody(body)
+ExplainedPmix(r) ==
+    LET n  == Len(r.items)
+        st == [items |-> [i \in 1..n |-> [text |-> r.items[i], idx |-> i - 1]], cur |-> 1, sel |-> [i \in 1..n |-> i],
+               query |-> r.q, fp |-> FALSE, delim |-> r.d, sep |-> r.sep]
+        ti == TInfo(<<"LB", "PLUS", "RB">>)
+        M(body) == Meaning(PhB(body), ti, st)
+        F(body) == FileContent(PhB(body), ti, st)
+    IN /\ r.err = ""
+       /\ r.seen = M(<<"q", "COLON", "1">>) \o M(<<"q", "COLON", "2", "DOT", "DOT">>) \o M(<<"q", "COLON", "s", "MINUS", "1">>)
+                   \o M(<<"2">>) \o M(<<"PLUS", "1">>)
+       /\ r.pf = F(<<"PLUS", "f">>) /\ r.pf2 = F(<<"PLUS", "f", "2">>) /\ r.cf = F(<<"f">>) /\ r.nf = F(<<"PLUS", "n", "f">>)
+       /\ RecordsReadBack(FileRecords(PhB(<<"PLUS", "f", "2">>), ti, st), r.pf2, r.sep)
+
+Explained(r) == CASE r.kind = "tmux"  -> ExplainedTmux(r)
+                  [] r.kind = "pexec" -> ExplainedPexec(r)
+                  [] r.kind = "pmix"  -> ExplainedPmix(r)
+                  [] OTHER            -> ExplainedExpand(r)
 JInv == Explained(TraceLog[l]) \/ PrintT(<<"MISMATCH", l>>)
 (* how many records the property actually speaks about (evidence only) *)
 JStat == LET r == TraceLog[l] IN
